@@ -98,6 +98,81 @@ fn check_calver(c: &CalverCase, cx: &mut Cx) -> Res {
     Ok(())
 }
 
+
+/// the git source: the date printed is the HEAD commit's (UTC), also when a dirty work tree is
+/// switched off with --clean / --no-dirty after detection, and the tag's once --no-bump-context
+/// has dropped the commit time
+#[derive(Debug, Clone, Hash, Serialize, Deserialize)]
+struct GitCalCase {
+    before: Vec<i32>, // commits before the tag (time skews)
+    after: Vec<i32>,  // commits after the tag
+    dirt: u8,         // 0 clean, 1 modified, 2 untracked, 3 staged
+    flag: u8,         // 0 --clean, 1 --no-dirty, 2 --no-bump-context, 3 none (clean trees only)
+    preset: usize,
+    pep440: bool,
+}
+fn check_git_calver(c: &GitCalCase, cx: &mut Cx) -> Res {
+    use crate::gitlab::{Op, Repo};
+    let mut repo = match Repo::new() {
+        Ok(r) => r,
+        Err(e) => {
+            infra(format!("cannot create repository: {e}"));
+            return Ok(());
+        }
+    };
+    let mut ops: Vec<Op> = c.before.iter().map(|s| Op::Commit { time_skew: *s as i64 }).collect();
+    ops.push(Op::Tag { name: 1, annotated: c.preset % 2 == 0, at: None });
+    ops.extend(c.after.iter().map(|s| Op::Commit { time_skew: *s as i64 }));
+    match c.dirt {
+        1 => ops.push(Op::DirtyModify),
+        2 => ops.push(Op::DirtyUntracked),
+        3 => ops.push(Op::DirtyStage),
+        _ => {}
+    }
+    for op in &ops {
+        if let Err(e) = repo.apply(op) {
+            infra(format!("git operation failed in the harness: {e}"));
+            return Ok(());
+        }
+    }
+    let m = &repo.model;
+    let head = m.head_commit();
+    let tagged = m.tags.first().map(|t| t.commit).unwrap_or(0);
+    let flag = if c.dirt != 0 && c.flag == 3 { 0 } else { c.flag };
+    let (extra, effective): (&[&str], u64) = match flag {
+        0 => (&["--clean"], m.commits[head].time),
+        1 => (&["--no-dirty"], m.commits[head].time),
+        2 => (&["--no-bump-context"], m.commits[tagged].time),
+        _ => (&[], m.commits[head].time),
+    };
+    let preset = CALVER[c.preset % CALVER.len()];
+    let fmt = if c.pep440 { "pep440" } else { "semver" };
+    let mut args = cli::sv(&["version", "-C", &repo.path(), "--schema", preset, "--output-format", fmt]);
+    args.extend(extra.iter().map(|s| s.to_string()));
+    let o = crate::proc::run(&crate::proc::Spec { args: args.clone(), cwd: Some("/".into()), ..Default::default() });
+    if o.timed_out {
+        infra("zerv timed out");
+        return Ok(());
+    }
+    ensure!(o.code == Some(0), "{args:?} failed: {}", o.err_str());
+    let out = o.out_str().trim_end().to_string();
+    let civ = cal::civil(effective);
+    cx.nt_if(c.dirt != 0 || flag == 2 || !c.after.is_empty());
+    cx.label(["--clean", "--no-dirty", "--no-bump-context", "plain"][flag as usize]);
+    cx.label_if(c.dirt != 0, "really-dirty-tree");
+    cx.note(|| format!("{preset} {fmt} {extra:?} dirt {} -> {out}", c.dirt));
+    let nums = leading_numbers(&out);
+    let want = [civ.year.to_string(), civ.month.to_string(), civ.day.to_string()];
+    ensure!(
+        nums.len() >= 3 && nums[0] == want[0] && nums[1] == want[1] && nums[2] == want[2],
+        "{args:?} prints {out:?}; the {} time {effective} is {}.{}.{} (UTC) (history: {})",
+        if flag == 2 { "tag commit's" } else { "HEAD commit's" },
+        want[0], want[1], want[2],
+        repo.log.join("; ")
+    );
+    Ok(())
+}
+
 #[derive(Debug, Clone, Hash, Serialize, Deserialize)]
 struct SchemaTsCase {
     ts: u64,
@@ -179,6 +254,16 @@ pub fn property() -> Property {
         |_| (instants(), 0usize..11, any::<bool>(), 0u8..6, instants()).prop_map(|(ts, preset, pep440, mode, other_ts)| CalverCase { ts, preset, pep440, mode, other_ts }).boxed(),
         check_calver,
     );
+    let git_calver = RandomSub::<GitCalCase>::new(
+        "git-calver",
+        (400, 6_000),
+        |_| {
+            let skews = || proptest::collection::vec(-400_000i32..400_000, 0..3);
+            (skews(), skews(), 0u8..4, 0u8..4, 0usize..11, any::<bool>()).prop_map(|(before, after, dirt, flag, preset, pep440)| GitCalCase { before, after, dirt, flag, preset, pep440 }).boxed()
+        },
+        check_git_calver,
+    )
+    .shrink_iters(40);
     let schema_ts = EnumSub::<SchemaTsCase>::new(
         "schema-patterns",
         "16 patterns x 3 schema sections x 2 formats x 40 (quick) / 1000 (thorough) fixed instants spread over 1970..2199",
@@ -204,12 +289,12 @@ pub fn property() -> Property {
     );
     Property {
         id: "C17",
-        rule: "cases = Unix timestamps (every day of 1970..2199 at its first and last second, random instants biased to day/leap/year/week boundaries) x the 16 documented patterns; CalVer presets on sources none (--bumped-timestamp) and stdin (last_timestamp only / both); each pattern by name inside --schema-ron in each section. Oracle: Hinnant civil-from-days calendar, independent of chrono. Non-trivial = instant within 1 s of a day boundary or in Feb/Mar of a leap year (CLI: also every stdin-sourced case); distinct = distinct cases.",
+        rule: "cases = Unix timestamps (every day of 1970..2199 at its first and last second, random instants biased to day/leap/year/week boundaries) x the 16 documented patterns; CalVer presets on sources none (--bumped-timestamp) and stdin (last_timestamp only / both); each pattern by name inside --schema-ron in each section. Oracle: Hinnant civil-from-days calendar, independent of chrono. Non-trivial = instant within 1 s of a day boundary or in Feb/Mar of a leap year (CLI: also every stdin-sourced case); distinct = distinct cases. git-calver: real repositories (commits with skewed dates before and after a tag, clean or really dirty work tree) with a CalVer preset and --clean / --no-dirty / --no-bump-context / no flag: the date printed is the HEAD commit's, or the tagged commit's once the commit time is dropped.",
         assumptions: vec![
             "timestamps 0 .. 2199-12-31T23:59:59Z (the quantifier's range)",
             "calver presets: the first three numbers of the output are year.month.day; leading zeros cannot appear in a SemVer/PEP 440 number so values are compared numerically in schema-patterns",
         ],
-        subs: vec![days.boxed(), rnd.boxed(), calver.boxed(), schema_ts.boxed()],
+        subs: vec![days.boxed(), rnd.boxed(), calver.boxed(), git_calver.boxed(), schema_ts.boxed()],
         known_repro: vec![],
     }
 }
